@@ -61,6 +61,15 @@
 (* the rule falls under the same policy, and creates a fresh one - built from the policy now in   *)
 (* force - when it does not.  Knob Stale (FALSE in the code): Inherit keeps the limiter of the    *)
 (* rule although the policy the rule falls under has changed.                                     *)
+(* Options of a filter (Options, kinds in Optioned): besides the part of its spec that nothing     *)
+(* observes (version fv) a filter of a kind in Optioned has *options*, each with a version of its  *)
+(* own: pobj[id].opt[o] is the version of option o the spec of generation id configures, and      *)
+(* pobj[id].eff[i][o] the version the instance of filter i actually works with.  An update of     *)
+(* kind o \in Options changes only option o of the filter's spec ("allopts": all of them at once). *)
+(* A request of class "o" shows, in the way its backend call is made, the options in force        *)
+(* (rq[r].eo).  Knob StaleOpts ({} in the code): Inherit takes over from the previous generation's *)
+(* instance the part that the options in StaleOpts configure when no other option has changed     *)
+(* (a comparison "can the previous generation's ... be reused" that forgets these options).       *)
 (* The contract (what C11 states) are the invariants at the end; they must hold for the modes of  *)
 (* the real code.                                                                                 *)
 EXTENDS Integers, Sequences, FiniteSets
@@ -81,16 +90,20 @@ CONSTANTS Reqs,        \* request processes (strings)
           IPs,         \* client addresses of requests: subset of {"n", "b"} ("b" is blocked by every other options version)
           LoadPerStep, \* impl knob (FALSE in the code): every step of a request re-reads m.inst
           Targets,     \* what a request may address: "srv" (through the server) and/or pipelines (directly)
-          PipKinds,    \* what a pipeline update may change: subset of {"filters", "resil", "both", "dflt"}
-          Classes,     \* request classes: subset of {"n", "x", "f", "d"}
+          PipKinds,    \* what a pipeline update may change: subset of {"filters", "resil", "both", "dflt", "allopts"} \cup Options
+          Classes,     \* request classes: subset of {"n", "x", "f", "d", "o"}
           Reuse,       \* impl knob (FALSE in the code): reload takes over the instance of a filter whose own spec is unchanged
-          Stale        \* impl knob (FALSE in the code): Inherit keeps the limiter of a URL rule whose policy has changed
+          Stale,       \* impl knob (FALSE in the code): Inherit keeps the limiter of a URL rule whose policy has changed
+          Options,     \* names of the separately versioned options of the filters of a kind in Optioned (update kinds of their own)
+          StaleOpts    \* impl knob ({} in the code): options whose effect Inherit carries over from the previous generation
 
 NF == Len(Kinds)
 Pipes == {Routed[1], Routed[2]} \cup Others
 
 Limiting == {"rl"}     \* kinds that limit class "x" requests to Limit permits per period and state cell
 Resilient == {"px"}    \* kinds that work under the pipeline-level resilience policies
+Optioned == {"px"}     \* kinds with separately versioned options, shown by class "o" requests
+OptVec(v) == [o \in Options |-> v]
 Limit == 1
 DTight(dv) == (dv % 2) = 1   \* the policy version dv of the default-policy choice selects: tight (Limit permits) / loose (no limit)
 
@@ -118,7 +131,7 @@ Blocked(g, ip) == ip = "b" /\ (sgen[g].ov % 2) = 0
 
 Idle == [op |-> "idle", p |-> "-", new |-> 0, i |-> 0]
 NoReq == [pc |-> "idle", tg |-> "-", ip |-> "n", cl |-> "n", sg |-> 0, be |-> 0, rw |-> 0, xf |-> 0, ph |-> 0, i |-> 0, st |-> "",
-          po |-> 0, fs |-> 0, fp |-> [p \in Pipes |-> 0]]
+          po |-> 0, fs |-> 0, fp |-> [p \in Pipes |-> 0], eo |-> OptVec(0)]
 
 VerOf(id) == IF id = 0 THEN 0 ELSE pobj[id].ver
 NextVer(p) == Cardinality({j \in 1..Len(pobj) : pobj[j].name = p}) + 1
@@ -128,13 +141,16 @@ DvOf(id) == IF id = 0 THEN 0 ELSE pobj[id].dv
 (* a generation object built from version fv of the filters (whose default-policy choice is dv)   *)
 (* and pv of the resilience section; an initialised one (Init) has its own state cells and works  *)
 (* under its own policies                                                                         *)
-NewObjD(p, v, fv, pv, dv, id, init) ==
+NewObjO(p, v, fv, pv, dv, ov, id, init) ==
     [name |-> p, ver |-> v, fv |-> fv, pv |-> pv, dv |-> dv, closed |-> FALSE,
+     opt |-> ov,                         \* versions of the options the spec configures
+     eff |-> [i \in 1..NF |-> IF init /\ Kinds[i] \in Optioned THEN ov ELSE OptVec(0)],   \* ... and those instance i works with
      ref |-> [i \in 1..NF |-> IF init THEN id ELSE 0],
      dref |-> [i \in 1..NF |-> IF init /\ Kinds[i] \in Limiting THEN id ELSE 0],
      pol |-> [i \in 1..NF |-> IF init /\ Kinds[i] \in Resilient THEN pv ELSE 0],
      perm |-> [i \in 1..NF |-> 0],       \* observation: class "x" requests this generation's filter i let pass
      dperm |-> [i \in 1..NF |-> 0]]      \* observation: class "d" requests this generation's filter i let pass
+NewObjD(p, v, fv, pv, dv, id, init) == NewObjO(p, v, fv, pv, dv, OptVec(1), id, init)
 NewObj(p, v, fv, pv, id, init) == NewObjD(p, v, fv, pv, 1, id, init)
 Lim0 == [spent |-> {}, off |-> {}, dspent |-> {}]
 Valid(o, i) == o.ref[i] # 0 /\ <<o.ref[i], i>> \notin dead
@@ -183,10 +199,11 @@ PipBegin(p, kind) ==
     /\ CanBegin /\ cnt.pip < MaxPip /\ ns[p] # 0 /\ kind \in PipKinds
     /\ LET old == pobj[ns[p]]
            fv == IF kind = "resil" THEN old.fv ELSE old.fv + 1
-           pv == IF kind \in {"filters", "dflt"} THEN old.pv ELSE old.pv + 1
+           pv == IF kind \in {"resil", "both"} THEN old.pv + 1 ELSE old.pv
            dv == IF kind = "dflt" THEN old.dv + 1 ELSE old.dv
-       IN /\ pobj' = Append(pobj, NewObjD(p, NextVer(p), fv, pv, dv, Len(pobj) + 1, FALSE))
-          /\ last' = [a |-> "pipBegin", p |-> p, ver |-> NextVer(p), kind |-> kind, fv |-> fv, pv |-> pv, dv |-> dv]
+           ov == [o \in Options |-> IF kind = o \/ kind = "allopts" THEN old.opt[o] + 1 ELSE old.opt[o]]
+       IN /\ pobj' = Append(pobj, NewObjO(p, NextVer(p), fv, pv, dv, ov, Len(pobj) + 1, FALSE))
+          /\ last' = [a |-> "pipBegin", p |-> p, ver |-> NextVer(p), kind |-> kind, fv |-> fv, pv |-> pv, dv |-> dv, opt |-> ov]
     /\ u' = [op |-> "pip", p |-> p, new |-> Len(pobj) + 1, i |-> 1]
     /\ cnt' = [cnt EXCEPT !.pip = @ + 1]
     /\ UNCHANGED <<muxInst, sgen, ns, dead, lim, rq>>
@@ -209,6 +226,12 @@ PipInheritF ==
                                              ELSE IF m = "fresh" THEN u.new
                                              ELSE IF pobj[u.new].dv = pobj[old].dv \/ Stale THEN pobj[old].dref[u.i]
                                              ELSE u.new,
+                        \* the options the instance works with: those of its own spec - unless (knob) Inherit carries some over
+                        ![u.new].eff[u.i] = IF k \notin Optioned THEN OptVec(0)
+                                            ELSE IF reuse THEN pobj[old].eff[u.i]
+                                            ELSE [o \in Options |->
+                                                    IF o \in StaleOpts /\ (\A o2 \in Options \ StaleOpts : pobj[u.new].opt[o2] = pobj[old].opt[o2])
+                                                    THEN pobj[old].eff[u.i][o] ELSE pobj[u.new].opt[o]],
                         ![old].ref[u.i] = IF m = "move" /\ ~reuse THEN 0 ELSE @]
           /\ last' = [a |-> "pipInherit", p |-> u.p, i |-> u.i, k |-> k]
     /\ u' = [u EXCEPT !.i = @ + 1]
@@ -251,10 +274,10 @@ CtlInherit ==
 (* CreatePipeline of another object: entity.Init ; Store                                         *)
 CreateInit(q) ==
     /\ CanBegin /\ cnt.other < MaxOther /\ q \in Others /\ ns[q] = 0
-    /\ pobj' = Append(pobj, NewObjD(q, NextVer(q), NextVer(q), NextVer(q), NextVer(q), Len(pobj) + 1, TRUE))
+    /\ pobj' = Append(pobj, NewObjO(q, NextVer(q), NextVer(q), NextVer(q), NextVer(q), OptVec(NextVer(q)), Len(pobj) + 1, TRUE))
     /\ u' = [op |-> "create", p |-> q, new |-> Len(pobj) + 1, i |-> 0]
     /\ cnt' = [cnt EXCEPT !.other = @ + 1]
-    /\ last' = [a |-> "createInit", p |-> q, ver |-> NextVer(q), fv |-> NextVer(q), pv |-> NextVer(q), dv |-> NextVer(q)]
+    /\ last' = [a |-> "createInit", p |-> q, ver |-> NextVer(q), fv |-> NextVer(q), pv |-> NextVer(q), dv |-> NextVer(q), opt |-> OptVec(NextVer(q))]
     /\ UNCHANGED <<muxInst, sgen, ns, dead, lim, rq>>
 
 CreateStore ==
@@ -364,6 +387,7 @@ Advance(r, res) == LET o == pobj[rq[r].ph]  i == rq[r].i IN
     [rq EXCEPT ![r].i = IF res = "pass" THEN i + 1 ELSE i,
                ![r].pc = IF res = "pass" /\ i < NF THEN "run" ELSE "done",
                ![r].po = IF res = "bfail" THEN o.pol[i] ELSE @,
+               ![r].eo = IF res = "pass" /\ rq[r].cl = "o" /\ Kinds[i] \in Optioned THEN o.eff[i] ELSE @,
                ![r].st = CASE res = "fail" -> "fail" [] res = "limited" -> "429" [] res = "bfail" -> "bfail"
                            [] OTHER -> IF i = NF THEN "ok" ELSE ""]
 
@@ -374,6 +398,7 @@ RunObs(a, r, res) == LET o == pobj[rq[r].ph]  i == rq[r].i IN
     [a |-> a, r |-> r, i |-> i, k |-> Kinds[i], ok |-> res # "fail", res |-> res, cl |-> rq[r].cl,
      ver |-> o.ver, fv |-> o.fv, pv |-> o.pv, dv |-> o.dv, tight |-> DTight(o.dv), closed |-> o.closed,
      pol |-> IF res = "bfail" THEN o.pol[i] ELSE 0,
+     opt |-> o.opt, eff |-> o.eff[i],    \* the options configured / in force (class "o" requests show the latter)
      over |-> \/ Permit(r) /\ o.perm[i] + 1 > Limit
               \/ PermitD(r) /\ DTight(o.dv) /\ o.dperm[i] + 1 > Limit]
 
@@ -465,9 +490,12 @@ Settled == u.op = "idle" => \A q \in Pipes : Servable(q)
 (* ... a request for the URL that falls under the default policy is limited only by a generation  *)
 (* whose default policy limits at all (once an update that switches the default policy has been   *)
 (* applied, the limiter of the previous policy is no longer in force for new requests) ...        *)
+(* ... every option a request's backend call shows is the one the generation it holds configures  *)
+(* (once an update of a single option has been applied, every new request is handled under it) ... *)
 Configured == \A r \in Reqs :
     /\ (rq[r].po # 0 => rq[r].po = pobj[rq[r].ph].pv)
     /\ ((rq[r].cl = "d" /\ rq[r].st = "429") => DTight(pobj[rq[r].ph].dv))
+    /\ \A o \in Options : rq[r].eo[o] # 0 => rq[r].eo[o] = pobj[rq[r].ph].opt[o]
 
 (* ... and no generation lets more class "x" requests pass than it is configured to, whatever a    *)
 (* Close of another generation did to a state cell the two share                                  *)
